@@ -37,12 +37,24 @@ fn fold(b: &[u8]) -> u64 {
     h
 }
 
-pub const OP_NAMES: [&str; 31] = [
+pub const OP_NAMES: [&str; 37] = [
     "groestl256", "groestl512", "groestl224", "groestl384", "jh256", "blake256", "blake512", "chacha20", "ietf_seek", "skein256_256", "threefish256", "skein512_512", "skein1024_1024",
     "jh512", "skein512_256", "blake224", "blake384", "jh224", "jh384", "chacha8", "chacha12", "xchacha8", "xchacha12", "xchacha20", "threefish512", "threefish1024_tweak", "block_api_refill4",
     "skein256_512", "skein1024_256", "groestl256_chunked", "blake256_chunked",
+    // long single calls (bulk paths): several KiB per call, different data in every thread
+    "chacha20_4200", "blake256_2100", "blake512_4300", "groestl256_600", "jh256_300", "skein512_1100",
 ];
-pub const NOPS: u64 = 31;
+pub const NOPS: u64 = 37;
+
+fn long_msg(tag: u64, n: usize) -> Vec<u8> {
+    let mut s = tag ^ 0x5555;
+    let mut v = Vec::with_capacity(n + 8);
+    while v.len() < n {
+        v.extend_from_slice(&splitmix(&mut s).to_le_bytes());
+    }
+    v.truncate(n);
+    v
+}
 
 /// one short operation on a private instance; message/key derived from the tag so that every result is unique
 fn op(kind: u64, tag: u64) -> u64 {
@@ -140,6 +152,17 @@ fn op(kind: u64, tag: u64) -> u64 {
         }
         27 => fold(&Skein256::<U64>::digest(&msg[..n])),
         28 => fold(&Skein1024::<U32>::digest(&msg[..n])),
+        31 => {
+            let mut c = ChaCha20::new(GenericArray::from_slice(&msg[..32]), GenericArray::from_slice(&msg[32..40]));
+            let mut buf = long_msg(tag, 4200);
+            c.apply_keystream(&mut buf);
+            fold(&buf)
+        }
+        32 => fold(&Blake256::digest(&long_msg(tag, 2100))),
+        33 => fold(&Blake512::digest(&long_msg(tag, 4300))),
+        34 => fold(&Groestl256::digest(&long_msg(tag, 600))),
+        35 => fold(&Jh256::digest(&long_msg(tag, 300))),
+        36 => fold(&Skein512::<U64>::digest(&long_msg(tag, 1100))),
         29 => {
             let mut h = Groestl256::new();
             h.update(&msg[..n / 2]);
@@ -160,8 +183,9 @@ fn op(kind: u64, tag: u64) -> u64 {
 fn workload(base: u64, w: u64) -> Vec<Vec<(u64, u64)>> {
     let mut s = base ^ w.wrapping_mul(0x1234_5678_9abc_def1);
     let focus = w % NOPS;
-    let threads = 2 + splitmix(&mut s) % 3;
-    let steps = 2 + splitmix(&mut s) % 3;
+    let threads = if focus >= 31 { 3 + splitmix(&mut s) % 2 } else { 2 + splitmix(&mut s) % 3 };
+    // long calls are expensive under the interpreter: such a workload is the racing first calls only
+    let steps = if focus >= 31 { 1 } else { 2 + splitmix(&mut s) % 3 };
     let mut out = Vec::new();
     for _ in 0..threads {
         let mut v = vec![(focus, splitmix(&mut s))];
@@ -174,7 +198,7 @@ fn workload(base: u64, w: u64) -> Vec<Vec<(u64, u64)>> {
                 v.push(prev);
                 continue;
             }
-            let k = if c == 1 { (focus + 1 + splitmix(&mut s) % 3) % NOPS } else { splitmix(&mut s) % NOPS };
+            let k = if c == 1 { (focus + 1 + splitmix(&mut s) % 3) % 31 } else { splitmix(&mut s) % 31 };
             v.push((k, splitmix(&mut s)));
         }
         out.push(v);
@@ -292,7 +316,7 @@ fn main() {
     let a: Vec<String> = std::env::args().collect();
     let mode = a.get(1).map(|s| s.as_str()).unwrap_or("");
     let base: u64 = a.get(2).and_then(|s| s.parse().ok()).unwrap_or(1);
-    let nw: u64 = a.get(3).and_then(|s| s.parse().ok()).unwrap_or(62);
+    let nw: u64 = a.get(3).and_then(|s| s.parse().ok()).unwrap_or(74);
     match mode {
         "expected" => {
             // sequential, one at a time; workloads separated by ';'
